@@ -1257,6 +1257,394 @@ def suite_exvalues(ck, report='C01'):
     ck.sample({'suite': 'fe.exvalues', 'spec': specs[len(specs) // 2][0][1]})
 
 
+# ================================================================================================ fe.sites
+#
+# A fixed catalogue of minimal specs, run in every tier: for every language rule that the random injections reach only
+# now and then (or through one phrasing only) the smallest spec that breaks it -- and beside it the nearest spec that
+# is legal, so that a rule applied too eagerly shows as a refusal.  Written by hand from docs/lang_ref.rst; the
+# expected verdict never comes from the compiler.  (rule id of DESIGN Appendix A, name, expected, files)
+
+_NS = 'namespace ns\n\n'
+
+
+def _one(text, *more):
+    return [('ns.stone', _NS + text)] + list(more)
+
+
+_CFG = lambda fields: ('cfg.stone', 'namespace stone_cfg\n\n%sstruct Route\n%s' % (   # noqa: E731
+    'import ns\n\n' if 'ns.' in fields else '', ''.join('    %s\n' % f for f in fields.split(';'))))
+_ROUTE = lambda attrs: 'route r(Void, Void, Void)\n    attrs\n%s' % ''.join('        %s\n' % a for a in attrs.split(';'))  # noqa: E731
+_FAR = ('far.stone', 'namespace far\n\nstruct FarS\n    ff Int32\n\nalias FarA = Int32\n\nannotation FarAn = Deprecated()\n\n'
+                     'annotation_type FarT\n    "d"\n\nroute far_r(Void, Void, Void)\n')
+_OTHER = ('other.stone', 'namespace other\n\nstruct OtherS\n    of Int32\n')
+
+
+def sites_catalogue():
+    R, A = 'refused', 'accepted'
+    c = []
+
+    def add(rule, name, expect, specs):
+        c.append((rule, name, expect, [tuple(f) for f in specs]))
+
+    # ---- syntax / layout
+    for kw in ('namespace', 'doc', 'example', 'error'):
+        add('S4.alias', 'keyword-%s-for-alias' % kw, R, _one('%s A = String\n' % kw))
+    add('S4.alias', 'alias', A, _one('alias A = String\n'))
+    add('S11', 'list-as-map-key', R, _one('struct S\n    m Map(String, Int32)\n    example default\n        m = {[1]: 2}\n'))
+    add('S11', 'map-as-map-key', R, _one('struct S\n    m Map(String, Int32)\n    example default\n        m = {{"a": 1}: 2}\n'))
+    add('S11', 'list-as-inner-map-key', R, _one('struct S\n    m Map(String, Map(String, Int32))\n    example default\n        m = {"k": {["j"]: 1}}\n'))
+    add('S11', 'string-as-map-key', A, _one('struct S\n    m Map(String, Int32)\n    example default\n        m = {"a": 2}\n'))
+    for name, text in (('struct-header', 'struct S'), ('struct-header-nl', 'struct S\n'), ('union-header', 'union U\n'),
+                       ('child-header', 'struct B\n    f Int32\n\nstruct S extends B'), ('route-open', 'route r('),
+                       ('route-comma', 'route r(Void,\n'), ('patch-header', 'struct S\n    f Int32\n\npatch struct S\n')):
+        add('S12', 'file-ends-after-' + name, R, _one(text))
+    add('S12', 'file-ends-after-last-member-without-newline', A, _one('union U\n    a\n    b'))
+    for name, text in (('alias', 'alias A = String)\n'), ('alias-args', 'alias A = List(String))\n'), ('route', 'route r(Void, Void, Void))\n'),
+                       ('field', 'struct S\n    f Int32)\n'), ('header', 'struct S)\n    f Int32\n'), ('tag', 'union U\n    a)\n'),
+                       ('default', 'struct S\n    f Int32 = 1)\n'), ('example', 'struct S\n    f Int32\n    example default\n        f = 1)\n')):
+        add('S13', 'unmatched-parenthesis-' + name, R, _one(text))
+    add('S13', 'matched-parentheses', A, _one('alias A = List(String(min_length=1))\n'))
+    big = '9' * 4400
+    add('A20', 'bound-of-4400-digits', R, _one('struct S\n    f UInt64(max_value=%s)\n' % big))
+    add('A27', 'default-of-4400-digits', R, _one('struct S\n    f Int64 = %s\n' % big))
+    add('C3', 'example-of-4400-digits', R, _one('struct S\n    f UInt64\n    example default\n        f = %s\n' % big))
+    add('C3', 'negative-example-of-4400-digits', R, _one('struct S\n    f Int64\n    example default\n        f = -%s\n' % big))
+    add('C3', 'example-of-19-digits', A, _one('struct S\n    f UInt64\n    example default\n        f = 9999999999999999999\n'))
+
+    add('S1', 'illegal-character-alone-on-a-line', R, _one('struct S\n    f Int32\n$\nstruct T\n    g Int32\n'))
+    add('S1', 'illegal-character-alone-on-the-last-line', R, _one('struct S\n    f Int32\n;\n'))
+    add('A2', 'namespace-doc-in-two-files', A, [('a.stone', 'namespace ns\n    "One."\n\nalias A = String\n'),
+                                                ('b.stone', 'namespace ns\n    "Two."\n\nalias B = String\n')])
+
+    # ---- defaults
+    add('A27', 'null-default-on-string', R, _one('struct S\n    f String = null\n'))
+    add('A27', 'null-default-on-int', R, _one('struct S\n    f Int32 = null\n'))
+    for v in ('1', '"a"', 'true', '1.5'):
+        add('A27', 'literal-%s-as-union-default' % v, R, _one('union U\n    a\n    b Int32\n\nstruct S\n    u U = %s\n' % v))
+    add('A27', 'literal-as-aliased-union-default', R, _one('union U\n    a\n\nalias UA = U\n\nstruct S\n    u UA = 1\n'))
+    add('A27', 'tag-as-union-default', A, _one('union U\n    a\n    b Int32\n\nstruct S\n    u U = a\n'))
+    add('A27', 'tag-as-aliased-union-default', A, _one('union U\n    a\n\nalias UA = U\n\nstruct S\n    u UA = a\n'))
+    add('A27', 'default-beyond-float64', R, _one('struct S\n    f Float64 = 1e999\n'))
+    add('A27', 'integer-default-beyond-float64', R, _one('struct S\n    f Float64 = 1%s\n' % ('0' * 400)))
+    add('C3', 'example-beyond-float64', R, _one('struct S\n    f Float64\n    example default\n        f = 1e999\n'))
+    add('C3', 'negative-example-beyond-float64', R, _one('struct S\n    f Float64\n    example default\n        f = -1e999\n'))
+    add('C3', 'integer-example-beyond-float64', R, _one('struct S\n    f Float64\n    example default\n        f = 1%s\n' % ('0' * 400)))
+    add('C3', 'integer-example-beyond-float32', R, _one('struct S\n    f Float32\n    example default\n        f = 1%s\n' % ('0' * 40)))
+    add('C3', 'large-float64-example', A, _one('struct S\n    f Float64\n    example default\n        f = 1e308\n'))
+
+    # ---- type references
+    for name, decl, ref in (('annotation', 'annotation An = Deprecated()\n\n', 'An'), ('annotation-type', 'annotation_type AT\n    "d"\n\n', 'AT'),
+                            ('namespace', 'import far\n\n', 'far'), ('imported-annotation', 'import far\n\n', 'far.FarAn'),
+                            ('imported-annotation-type', 'import far\n\n', 'far.FarT')):
+        for pos, text in (('field', 'struct S\n    f %s\n'), ('nullable-field', 'struct S\n    f %s?\n'), ('list-item', 'struct S\n    f List(%s)\n'),
+                          ('tag', 'union U\n    t %s\n'), ('alias', 'alias X = %s\n'), ('route-arg', 'route r(%s, Void, Void)\n'),
+                          ('parent', 'struct S extends %s\n    g Int32\n')):
+            add('A13.kind', '%s-as-%s-type' % (name, pos), R, _one(decl + text % ref, _FAR))
+    add('A13.kind', 'imported-struct-as-field-type', A, _one('import far\n\nstruct S\n    f far.FarS\n    g far.FarA\n', _FAR))
+    add('A22.notype', 'struct-field-without-type', R, _one('struct S\n    f\n'))
+    add('A22.notype', 'second-struct-field-without-type', R, _one('struct S\n    a Int32\n    f\n        "doc"\n'))
+    add('A22.notype', 'patched-struct-field-without-type', R, _one('struct S\n    a Int32\n\npatch struct S\n    f\n'))
+    add('A22.notype', 'inherited-struct-field-without-type', R, _one('struct B\n    a Int32\n\nstruct S extends B\n    f\n'))
+    add('A22.notype', 'union-member-without-type', A, _one('union U\n    f\n'))
+    add('A35', 'route-with-two-types', R, _one('route r(Void, Void)\n'))
+    add('A35', 'route-with-two-user-types', R, _one('struct S\n    f Int32\n\nroute r:2(S, S)\n    "doc"\n'))
+    add('A35', 'route-with-two-types-deprecated', R, _one('route r(Void, Void) deprecated\n'))
+    add('A35', 'route-with-three-types', A, _one('route r(Void, Void, Void)\n'))
+
+    # ---- route attributes
+    for name, ty, bad, good in (('bytes', 'Bytes?', '5', '"x"'), ('bytes-bool', 'Bytes', 'true', '"x"'), ('timestamp', 'Timestamp("%Y")?', '"x"', '"2020"'),
+                                ('timestamp-number', 'Timestamp("%Y")', '2020', '"2020"'), ('list', 'List(Int32)?', '1', 'null'),
+                                ('map', 'Map(String, Int32)?', '"x"', 'null'), ('struct', 'ns.T?', '1', 'null'), ('union-literal', 'ns.U?', '1', 'a'),
+                                ('union-string', 'ns.U', '"a"', 'a'), ('union-alias-literal', 'ns.UA?', 'true', 'a'), ('float', 'Float64', '"x"', '1.5'),
+                                ('string', 'String?', '1', '"x"'), ('boolean', 'Boolean', '1', 'true'), ('int-bound', 'Int32(max_value=5)', '6', '5')):
+        types = 'struct T\n    g Int32\n\nunion U\n    a\n    b Int32\n\nalias UA = U\n\n'
+        add('B17', 'attribute-%s' % name, R, [_CFG('k ' + ty), ('ns.stone', _NS + types + _ROUTE('k = ' + bad))])
+        add('B17', 'attribute-%s' % name, A, [_CFG('k ' + ty), ('ns.stone', _NS + types + _ROUTE('k = ' + good))])
+
+    add('B16', 'stone_cfg-without-route-schema', A, [('cfg.stone', 'namespace stone_cfg\n'), ('ns.stone', _NS + 'route r(Void, Void, Void)\n')])
+    add('B15', 'attribute-without-route-schema', R, [('cfg.stone', 'namespace stone_cfg\n'), ('ns.stone', _NS + _ROUTE('k = 1'))])
+
+    # ---- annotations
+    farc = ('far.stone', 'namespace far\n\nannotation_type FarT\n    p Int32\n\nannotation FarC = FarT(1)\n\nannotation FarD = Deprecated()\n')
+    for hname, host in (('field', 'struct S\n    f String\n        @%s\n'), ('tag', 'union U\n    t String\n        @%s\n'), ('alias', 'alias X = String\n    @%s\n')):
+        add('B23', 'imported-custom-annotation-on-' + hname, A, _one('import far\n\n' + host % 'far.FarC', farc))
+        add('B23', 'custom-annotation-of-imported-type-on-' + hname, A, _one('import far\n\nannotation C = far.FarT(2)\n\n' + host % 'C', farc))
+    add('B23', 'imported-custom-annotation-importer-handed-over-first', A,
+        [('ns.stone', _NS + 'import far\n\nalias X = String\n    @far.FarC\n\nstruct S\n    f X\n    g String\n        @far.FarC\n'), farc])
+    at2 = 'annotation_type T\n    p Int32\n    q String = "d"\n    r Boolean = false\n\n'
+    use = 'struct S\n    f String\n        @An\n'
+    for name, args, expect in (('two-positional', '1, "x"', A), ('three-positional', '1, "x", true', A), ('four-positional', '1, "x", true, 2', R),
+                               ('keywords-in-other-order', 'r=true, p=1', A), ('required-missing', 'q="x"', R), ('second-of-wrong-kind', '1, 2', R)):
+        add('B22', 'custom-annotation-arguments-' + name, expect, _one(at2 + 'annotation An = T(%s)\n\n' % args + use))
+    add('B23', 'imported-builtin-annotation-on-field', A, _one('import far\n\nstruct S\n    f String\n        @far.FarD\n', farc))
+    add('B20', 'parameter-without-type', R, _one('annotation_type T\n    "d"\n    p\n'))
+    add('B20', 'second-parameter-without-type', R, _one('annotation_type T\n    a Int32\n    p\n'))
+    add('B20', 'typed-parameter', A, _one('annotation_type T\n    "d"\n    p Int32\n'))
+    add('B21', 'own-namespace-as-prefix', R, _one('annotation_type T\n    "d"\n\nannotation A = ns.T()\n'))
+    add('B21', 'own-namespace-as-prefix-with-arguments', R, _one('annotation_type T\n    p Int32\n\nannotation A = ns.T(1)\n'))
+    add('B21', 'imported-annotation-type', A, _one('import far\n\nannotation A = far.FarT()\n\nstruct S\n    f String\n        @A\n', _FAR))
+    add('B21', 'no-prefix', A, _one('annotation_type T\n    "d"\n\nannotation A = T()\n\nstruct S\n    f String\n        @A\n'))
+    hosts = (('field', 'struct S\n    f String\n        @%s\n'), ('tag', 'union U\n    t String\n        @%s\n'), ('void-tag', 'union U\n    t\n        @%s\n'),
+             ('alias', 'alias X = String\n    @%s\n'), ('patched-field', 'struct S\n    a Int32\n\npatch struct S\n    f String?\n        @%s\n'),
+             ('second-of-two', 'annotation Ok = Preview()\n\nstruct S\n    f String\n        @Ok\n        @%s\n'))
+    decls = 'import far\n\nstruct T\n    g Int32\n\nunion V\n    v\n\nalias AL = String\n\nannotation_type AT\n    "d"\n\nannotation An = AT()\n\n'
+    for hname, host in hosts:
+        for name, ref in (('undefined', 'Nope'), ('namespace-not-imported', 'other.X'), ('undeclared-namespace', 'zz.X'), ('own-namespace', 'ns.An'),
+                          ('struct-as-namespace', 'T.X'), ('alias-as-namespace', 'AL.X'), ('annotation-as-namespace', 'An.X'),
+                          ('undefined-in-imported-namespace', 'far.Nope'), ('a-struct', 'T'), ('a-union', 'V'), ('an-alias', 'AL'),
+                          ('an-annotation-type', 'AT'), ('an-imported-struct', 'far.FarS'), ('an-imported-annotation-type', 'far.FarT'),
+                          ('a-namespace', 'far')):
+            add('B23', '%s-on-%s' % (name, hname), R, _one(decls + host % ref, _FAR, _OTHER))
+        add('B23', 'annotation-on-%s' % hname, A, _one(decls + host % 'An', _FAR, _OTHER))
+    reds = 'annotation R1 = RedactedBlot()\n\nannotation R2 = RedactedHash("x")\n\n'
+    for ty in ('String', 'Int64', 'List(String)', 'String?'):
+        add('B24.alias', 'two-redactors-on-alias-of-' + ty, R, _one(reds + 'alias X = %s\n    @R1\n    @R2\n' % ty))
+        add('B24.alias', 'same-redactor-twice-on-alias-of-' + ty, R, _one(reds + 'alias X = %s\n    @R2\n    @R2\n' % ty))
+        add('B24.alias', 'one-redactor-on-alias-of-' + ty, A, _one(reds + 'alias X = %s\n    @R2\n' % ty))
+
+    # ---- examples
+    u = 'union U\n    a\n    b Int32\n    example default\n        %s\n'
+    for v in ('1', '"x"', 'true', '0', '[1]', '1.5'):
+        add('C4', 'void-member-given-' + v, R, _one(u % ('a = ' + v)))
+    add('C4', 'void-member-given-null', A, _one(u % 'a = null'))
+    add('C4', 'void-member-of-parent-given-1', R, _one('union P\n    a\n\nunion U extends P\n    b Int32\n    example default\n        a = 1\n'))
+    inner = {'struct': 'struct I\n    x Int32\n    example default\n        x = 1\n\n', 'union': 'union I\n    x\n    example default\n        x = null\n\n'}
+    for kind, decl in inner.items():
+        for ty, wrap in (('I', '%s'), ('I?', '%s'), ('List(I)', '[%s]'), ('Map(String, I)', '{"k": %s}'), ('IA', '%s')):
+            host = decl + 'alias IA = I\n\nstruct S\n    f %s\n    example default\n        f = %s\n'
+            for v in ('1', '"default"', 'true'):
+                add('C3', '%s-typed-%s-given-%s' % (kind, ty, v), R, _one(host % (ty, wrap % v)))
+            add('C3', '%s-typed-%s-given-its-example' % (kind, ty), A, _one(host % (ty, wrap % 'default')))
+            add('C7', '%s-typed-%s-refers-to-missing-example' % (kind, ty), R, _one(host % (ty, wrap % 'nope')))
+        for ty in ('I', 'I?', 'IA'):
+            host = decl + 'alias IA = I\n\nunion S\n    g\n    f %s\n    example default\n        f = %s\n'
+            add('C7', 'union-member-%s-typed-%s-refers-to-missing-example' % (kind, ty), R, _one(host % (ty, 'nope')))
+            add('C7', 'union-member-%s-typed-%s-given-its-example' % (kind, ty), A, _one(host % (ty, 'default')))
+    add('C7', 'example-refers-to-itself', R, _one('struct S\n    n Int32\n    s S?\n    example default\n        n = 1\n        s = default\n'))
+    add('C7', 'example-refers-to-itself-in-list', R, _one('struct S\n    n Int32\n    s List(S)\n    example default\n        n = 1\n        s = [default]\n'))
+    add('C7', 'example-refers-to-another-of-its-type', A,
+        _one('struct S\n    n Int32\n    s S?\n    example default\n        n = 1\n        s = leaf\n    example leaf\n        n = 2\n'))
+    add('C7', 'two-examples-refer-to-each-other', R,
+        _one('struct S\n    n Int32\n    s S?\n    example default\n        n = 1\n        s = second\n    example second\n        n = 2\n        s = default\n'))
+    add('C7', 'examples-of-two-types-refer-to-each-other', R,
+        _one('struct A\n    b B\n    example default\n        b = default\n\nstruct B\n    a A?\n    example default\n        a = default\n'))
+    add('C7', 'union-example-refers-to-itself', R, _one('union U\n    a\n    u U\n    example default\n        u = default\n'))
+    add('C7', 'union-example-refers-to-another', A, _one('union U\n    a\n    u U\n    example default\n        u = leaf\n    example leaf\n        a = null\n'))
+    tree = ('struct R\n    union\n        a A\n        b B\n    r Int32\n    example default\n        %s\n\nstruct A extends R\n    x Int32\n    example default\n'
+            '        r = 1\n        x = 2\n\nstruct B extends R\n    y Int32\n    example other\n        r = 1\n        y = 2\n')
+    add('C6', 'subtype-example-missing', R, _one(tree % 'a = nope'))
+    add('C6', 'subtype-example-of-the-other-subtype', R, _one(tree % 'a = other'))
+    add('C6', 'subtype-without-that-example', R, _one(tree % 'b = default'))
+    add('C6', 'subtype-example', A, _one(tree % 'a = default'))
+    add('C6', 'second-subtype-example', A, _one(tree % 'b = other'))
+    return c
+
+
+REPORT_CAP = 3
+
+
+def suite_sites(ck, report='C01'):
+    """`fe.sites`: the fixed catalogue -- every entry marked refused must end in InvalidSpec, every legal neighbour must compile"""
+    cat = sites_catalogue()
+    verdicts = compile_all([sp for _r, _n, _e, sp in cat], chunk=40)
+    fresh = {}                      # at most REPORT_CAP new violations per rule and direction (listed findings do not count)
+    for (rule, name, expect, sp), v in zip(cat, verdicts):
+        ck.case(('fe.sites', rule, name, expect), nontrivial=True)
+        ck.hist('fe.sites.rule', rule)
+        ck.hist('fe.sites.outcome', '%s/%s' % (expect, v['k'] if v['k'] != 'crash' else 'crash:' + v['exc']))
+        case = {'specs': [list(f) for f in sp], 'origin': 'fe.sites', 'verdict': v, 'suite': 'fe.sites', 'rule': rule, 'name': name}
+        if v['k'] == 'crash':
+            if report == 'C03':
+                ck.failing_input('C03: %s escapes the frontend (%s): %s' % (v['exc'], v['where'], name),
+                                 {'kind': 'escape', 'exc': v['exc'], 'where': v['where']}, case)
+            else:
+                ck.stat('fe.sites.escapes_left_to_C03')
+        elif report == 'C01':
+            if v['k'] == 'ok' and expect == 'refused' and fresh.get((rule, expect), 0) < REPORT_CAP:
+                how = ck.failing_input('C01: a spec that violates rule %s is accepted (%s)' % (rule, name),
+                                       {'kind': 'accepted', 'rule': rule, 'shape': name}, dict(case, expect='refused'))
+                fresh[(rule, expect)] = fresh.get((rule, expect), 0) + (how == 'new')
+            elif v['k'] == 'spec' and expect == 'accepted' and fresh.get((rule, expect), 0) < REPORT_CAP:
+                msg = spec_message(sp)
+                how = ck.failing_input('C01: a legal spec is refused (%s, legal neighbour of rule %s): %s' % (name, rule, msg),
+                                       {'kind': 'refused', 'rule': rule, 'shape': name, 'message': _msg_shape(msg)},
+                                       dict(case, expect='accepted', message=msg))
+                fresh[(rule, expect)] = fresh.get((rule, expect), 0) + (how == 'new')
+    ck.sample({'suite': 'fe.sites', 'rule': cat[0][0], 'name': cat[0][1], 'spec': cat[0][3][0][1]})
+
+
+# ================================================================================================ fe.docrefs
+#
+# "Well-formed doc references" (lang_ref "References"): a grid of reference text x docstring that carries it.  The
+# verdict of `DOCREFS` is written from the reference section, not from the code: True legal, False illegal, None not
+# judged.  A bare `:field:` name is looked up in the type the docstring belongs to, so its verdict depends on the host.
+
+_DR_FAR = ('far.stone', 'namespace far\n\nstruct FarS\n    ff Int32\n\nunion FarU\n    fu\n\nalias FarA = Int32\n\nalias FarSA = FarS\n\n'
+                        'annotation FarAn = Deprecated()\n\nroute far_r(Void, Void, Void)\n\nroute far_r:2(Void, Void, Void)\n')
+_DR_OTHER = ('other.stone', 'namespace other\n\nstruct OtherS\n    of Int32\n\nroute other_r(Void, Void, Void)\n')
+_DR_DECLS = ('struct T\n    g Int32\n\nstruct C extends T\n    h Int32\n\nunion U\n    a\n    b Int32\n\nalias AP = String\n\nalias AS = T\n\n'
+             'annotation An = Deprecated()\n\nannotation_type AT\n    "d"\n\nroute r(Void, Void, Void)\n\nroute r:2(Void, Void, Void)\n\n')
+
+# host -> (text with %s for the docstring, members visible to a bare :field:, or None when the doc belongs to no type; judged?)
+#   judged 'yes': docs the reference section names (routes, structs, struct fields, unions, union options);
+#   'elsewhere': docstrings the grammar allows beside them (alias, namespace) -- the same rules are expected to hold;
+#   'no': places where a string is not documentation of an API element (annotation types and their parameters, example texts)
+DOCREF_HOSTS = {
+    'struct': ('struct H\n    "%s"\n    hf Int32\n', ('hf',), 'yes'),
+    'field': ('struct H\n    hf Int32\n        "%s"\n    hg Int32\n', ('hf', 'hg'), 'yes'),
+    'child-field': ('struct H extends T\n    hf Int32\n        "%s"\n', ('hf', 'g'), 'yes'),
+    'union': ('union H\n    "%s"\n    hf\n    hg Int32\n', ('hf', 'hg'), 'yes'),
+    'void-tag': ('union H\n    hf\n        "%s"\n    hg Int32\n', ('hf', 'hg'), 'yes'),
+    'typed-tag': ('union_closed H\n    hf\n    hg Int32\n        "%s"\n', ('hf', 'hg'), 'yes'),
+    'route': ('route h(Void, Void, Void)\n    "%s"\n', None, 'yes'),
+    'patched-field': ('struct H\n    hf Int32\n\npatch struct H\n    hg Int32?\n        "%s"\n', ('hf', 'hg'), 'yes'),
+    'tree-root': ('struct H\n    "%s"\n    union\n        hs HS\n    hf Int32\n\nstruct HS extends H\n    hg Int32\n', ('hf',), 'yes'),
+    'tree-leaf-field': ('struct HR\n    union\n        hs H\n    g Int32\n\nstruct H extends HR\n    hf Int32\n        "%s"\n', ('hf', 'g'), 'yes'),
+    'alias': ('alias H = String\n    "%s"\n', None, 'elsewhere'),
+    'namespace': (None, None, 'elsewhere'),
+    'annotation-type': ('annotation_type H\n    "%s"\n    hp Int32\n', None, 'no'),
+    'parameter': ('annotation_type H\n    hp Int32\n        "%s"\n', None, 'no'),
+    'example-text': ('struct H\n    hf Int32\n    example default\n        "%s"\n        hf = 1\n', None, 'no'),
+}
+
+# (rule, reference text, verdict); verdict 'own' / 'inherited': a bare field name -- legal where the host has that member
+DOCREFS = [
+    ('C12', ':type:`T`', True), ('C12', ':type:`U`', True), ('C12', ':type:`C`', True), ('C12', ':type:`far.FarS`', True),
+    ('C12', ':type:`far.FarU`', True), ('C12', ':type:`AP`', False), ('C12', ':type:`AS`', None), ('C12', ':type:`far.FarA`', False),
+    ('C12', ':type:`far.FarSA`', None), ('C12', ':type:`r`', False), ('C12', ':type:`An`', False), ('C12', ':type:`AT`', False),
+    ('C12', ':type:`far`', False), ('C12', ':type:`String`', False), ('C12', ':type:`Nope`', False), ('C12', ':type:`far.Nope`', False),
+    ('C12', ':type:`other.OtherS`', False), ('C12', ':type:`zz.T`', False), ('C12', ':type:`T.g`', False), ('C12', ':type:``', False),
+    ('C12', ':type:`t`', False), ('C12', ':type:`far.far_r`', False),
+    ('C9', ':field:`T.g`', True), ('C9', ':field:`C.g`', True), ('C9', ':field:`C.h`', True), ('C9', ':field:`U.a`', True),
+    ('C9', ':field:`U.b`', True), ('C9', ':field:`far.FarS.ff`', True), ('C9', ':field:`far.FarU.fu`', True),
+    ('C9', ':field:`hf`', 'own'), ('C9', ':field:`g`', 'inherited'), ('C9', ':field:`T.nope`', False), ('C9', ':field:`T.h`', False),
+    ('C9', ':field:`U.nope`', False), ('C9', ':field:`far.FarS.nope`', False), ('C9', ':field:`Nope.x`', False), ('C9', ':field:`far.Nope.x`', False),
+    ('C9', ':field:`far.FarS`', False), ('C9', ':field:`AP.x`', False), ('C9', ':field:`AS.g`', None), ('C9', ':field:`far.FarA.x`', False),
+    ('C9', ':field:`r.x`', False), ('C9', ':field:`An.x`', False), ('C9', ':field:`AT.x`', False), ('C9', ':field:`String.x`', False),
+    ('C9', ':field:`other.OtherS.of`', False), ('C9', ':field:`zz.T.g`', False), ('C9', ':field:`T.g.x`', False), ('C9', ':field:`nope`', False),
+    ('C9', ':field:``', False), ('C9', ':field:`T.G`', False), ('C9', ':field:`far.ff`', False),
+    ('C11', ':route:`r`', True), ('C11', ':route:`r:1`', True), ('C11', ':route:`r:2`', True), ('C11', ':route:`far.far_r`', True),
+    ('C11', ':route:`far.far_r:2`', True), ('C11', ':route:`r:3`', False), ('C11', ':route:`r:0`', False), ('C11', ':route:`r:x`', False),
+    ('C11', ':route:`r:`', False), ('C11', ':route:`far.far_r:3`', False), ('C11', ':route:`far.nope`', False), ('C11', ':route:`nope`', False),
+    ('C11', ':route:`T`', False), ('C11', ':route:`AP`', False), ('C11', ':route:`An`', False), ('C11', ':route:`far.FarS`', False),
+    ('C11', ':route:`other.other_r`', False), ('C11', ':route:`zz.r`', False), ('C11', ':route:`T.r`', False), ('C11', ':route:``', False),
+    ('C11', ':route:`far`', False), ('C11', ':route:`R`', False),
+    ('C10', ':link:`Stone Repo https://github.com/dropbox/stone`', True), ('C10', ':link:`docs http://x.y/z`', True),
+    ('C10', ':link:`X https://x.y`', True), ('C10', ':link:`onlyoneword`', False), ('C10', ':link:``', False), ('C10', ':link:`title `', False),
+    ('C10', ':link:` uri`', False), ('C10', ':link:`a  b`', None),
+    ('C13', ':val:`null`', True), ('C13', ':val:`true`', True), ('C13', ':val:`false`', True), ('C13', ':val:`0`', True), ('C13', ':val:`-12`', True),
+    ('C13', ':val:`3.5`', True), ('C13', ':val:`1e5`', True), ('C13', ':val:`"str"`', True), ('C13', ':val:`""`', True), ('C13', ':val:`"a b"`', True),
+    ('C13', ':val:`word`', False), ('C13', ':val:`"unterminated`', False), ('C13', ':val:`1.2.3`', False), ('C13', ':val:``', False),
+    ('C13', ':val:`-`', False), ('C13', ':val:`1 2`', False), ('C13', ':val:`True`', None), ('C13', ':val:`.5`', None), ('C13', ':val:`2.`', None),
+    ('C8', ':zqtag:`x`', False), ('C8', ':types:`T`', False), ('C8', ':values:`1`', False), ('C8', ':Type:`T`', None),
+    # not references at all (the format is :tag:`value`): plain text
+    ('C8', ':type: `Nope`', True), ('C8', 'type:`Nope`', True), ('C8', ':type:Nope', True), ('C8', '`Nope`', True), ('C8', ':nope:', True),
+]
+
+
+_DR_ALONE = (':link:`X https://x.y`',)       # legal references kept out of the all-in-one docstring (refused today: reported once)
+
+
+def docref_verdict(v, members):
+    if v == 'own':
+        return members is not None and 'hf' in members
+    if v == 'inherited':
+        return members is not None and 'g' in members
+    return v
+
+
+def docref_spec(host, doc):
+    esc = doc.replace('\\', '\\\\').replace('"', '\\"')
+    if host == 'namespace':
+        text = 'namespace ns\n    "%s"\n\nimport far\n\n%s' % (esc, _DR_DECLS)
+    else:
+        text = 'namespace ns\n\nimport far\n\n' + _DR_DECLS + DOCREF_HOSTS[host][0] % esc
+    return [_DR_FAR, _DR_OTHER, ('ns.stone', text)]
+
+
+def docrefs_grid(rng, full):
+    """[(host, rule or None, reference texts, verdict)]: per host ONE spec with every legal reference; every illegal (and
+    every not judged) reference alone in the two first hosts and in one other host (`full`: in every host)"""
+    out = []
+    hosts = list(DOCREF_HOSTS)
+    others = hosts[2:]
+    for i, (rule, ref, v) in enumerate(DOCREFS):
+        if v is True:
+            continue
+        for h in (hosts if full else hosts[:2] + [others[i % len(others)], others[(i * 7 + 3) % len(others)]]):
+            members = DOCREF_HOSTS[h][1]
+            out.append((h, rule, [ref], docref_verdict(v, members)))
+    for h in hosts:
+        legal = [ref for _r, ref, v in DOCREFS if v is True and ref not in _DR_ALONE]
+        out.append((h, None, legal, True))
+        if full or h in ('struct', 'route', 'void-tag'):
+            out += [(h, None, [ref], True) for ref in _DR_ALONE]
+    seen, res = set(), []
+    for c in out:
+        key = (c[0], tuple(c[2]))
+        if key not in seen:
+            seen.add(key)
+            res.append(c)
+    return res
+
+
+def suite_docrefs(ck, report='C01'):
+    """`fe.docrefs`: doc references x the docstrings that can carry them, against an independent statement of the
+    reference rules.  An illegal reference must be refused wherever the docstring stands (docs of aliases and of the
+    namespace included: the compiler parses them again later); legal ones must compile."""
+    grid = docrefs_grid(ck.rng, ck.scale(False, True))
+    specs = [docref_spec(h, 'See %s for more.' % ' and '.join(refs)) for h, _r, refs, _v in grid]
+    verdicts = compile_all(specs, chunk=40)
+    reported = set()
+    fresh = {}
+    for (host, rule, refs, verdict), sp, rv in zip(grid, specs, verdicts):
+        judged = DOCREF_HOSTS[host][2]
+        ck.case(('fe.docrefs', host, tuple(refs)), nontrivial=True)
+        out = rv['k'] if rv['k'] != 'crash' else 'crash:' + rv['exc']
+        ck.hist('fe.docrefs.host', host)
+        ck.hist('fe.docrefs.legal', '%s/%s/%s' % ({'yes': 'doc', 'elsewhere': 'other-doc', 'no': 'no-doc'}[judged],
+                                                  {True: 'legal', False: 'illegal', None: 'not-judged'}[verdict], out))
+        case = {'specs': [list(f) for f in sp], 'origin': 'fe.docrefs', 'verdict': rv, 'host': host, 'refs': refs, 'suite': 'fe.docrefs'}
+        if rv['k'] == 'crash':
+            if report == 'C03':
+                if (rv['exc'], rv['where']) not in reported:
+                    reported.add((rv['exc'], rv['where']))
+                    ck.failing_input('C03: %s escapes the frontend (%s): doc reference %s in the doc of a %s' % (rv['exc'], rv['where'], refs[0], host),
+                                     {'kind': 'escape', 'exc': rv['exc'], 'where': rv['where']}, case)
+            else:
+                ck.stat('fe.docrefs.escapes_left_to_C03')
+            continue
+        if report != 'C01' or judged == 'no' or verdict is None:
+            continue
+        if rv['k'] == 'ok' and verdict is False:
+            if judged == 'elsewhere':
+                # one finding per kind of docstring: none of its references is looked at
+                if ('unchecked', host) not in reported:
+                    reported.add(('unchecked', host))
+                    ck.failing_input('C01: an illegal doc reference (%s) in the doc of the %s is accepted' % (refs[0], host),
+                                     {'kind': 'accepted', 'rule': 'C8-C13', 'host': host + '-doc'}, dict(case, expect='refused', rule=rule))
+            elif fresh.get(rule, 0) < REPORT_CAP:
+                how = ck.failing_input('C01: an illegal doc reference (%s) in the doc of a %s is accepted' % (refs[0], host),
+                                       {'kind': 'accepted', 'rule': rule, 'ref': refs[0], 'host': host},
+                                       dict(case, expect='refused', rule=rule))
+                fresh[rule] = fresh.get(rule, 0) + (how == 'new')
+        elif rv['k'] == 'spec' and verdict is True:
+            # which of the legal references is refused: each one alone
+            culprits = [r for r in refs if compile_one(docref_spec(host, 'See %s.' % r))['k'] == 'spec'] or refs
+            for r in culprits:
+                sp1 = docref_spec(host, 'See %s.' % r)
+                msg = spec_message(sp1)
+                shape = 'one-letter-title' if r.startswith(':link:`X ') else r.split('`')[0]
+                if (shape, _msg_shape(msg)) in reported:
+                    continue
+                reported.add((shape, _msg_shape(msg)))
+                ck.failing_input('C01: a legal doc reference (%s) in the doc of a %s is refused: %s' % (r, host, msg),
+                                 {'kind': 'refused', 'rule': [x for x, y, _v in DOCREFS if y == r][0], 'shape': shape},
+                                 {'specs': [list(f) for f in sp1], 'origin': 'fe.docrefs', 'host': host, 'refs': [r], 'suite': 'fe.docrefs',
+                                  'expect': 'accepted', 'message': msg})
+    ck.sample({'suite': 'fe.docrefs', 'host': grid[0][0], 'refs': grid[0][2]})
+
+
 # ================================================================================================ by-construction oracle
 
 PRESETS =['small', 'default', 'fe', 'routes', 'rt', 'py_safe']
